@@ -67,3 +67,25 @@ package loader
 //@   ensures[C13] ghost.denied == 1 ==> (ghost.pgets == old(ghost.pgets) && ghost.lastSent.err != nil && ghost.lastSent.secret == nil && ghost.lastSent.handler == nil)
 //@   ensures[C13] (ghost.denied == 0 && ghost.allowed == 0) ==> (ghost.pgets == old(ghost.pgets) && ghost.lastSent.err != nil && ghost.lastSent.secret == nil && ghost.lastSent.handler == nil)
 //@   ensures[C13] ghost.lastSent.err == nil ==> (ghost.denied == 0 && ghost.allowed == 1 && ghost.admits == old(ghost.admits) + 1 && ghost.lastSent.secret != nil && ghost.lastSent.handler != nil)
+
+// C16 (consumer side) — every configuration taken from the source rebuilds BOTH the providers
+// and the prefix filters before the loop serves the next query or configuration: needFilters
+// is an auxiliary variable set after build and cleared after createPrefixFilters.
+//@ func (l Loader) build(c config.ServerConfig) (res []tq.SecretProvider)
+//@   unverified maps and slices of structs, factories behind interfaces: outside the generator's subset (see C10/C13 notes)
+//@   ensures forall j int :: 0 <= j && j < len(res) ==> res[j] != nil
+
+//@ func (l *Loader) createPrefixFilters(c config.ServerConfig) (deny *prefixFilter, allow *prefixFilter)
+//@   unverified builds the two filters from c.PrefixDeny / c.PrefixAllow (net.ParseCIDR); only its being called is tracked
+//@   ensures deny != nil && allow != nil
+
+//@ func (l *Loader) updates()
+//@   ghostset needFilters 0
+//@   requires l != nil && l.loggerProvider != nil && l.unmarshaled != nil
+//@   modifies ghost.needFilters, ghost.sends, ghost.lastSent
+//@   after[C16] Loader.build : ghost.needFilters = 1
+//@   after[C16] Loader.createPrefixFilters : ghost.needFilters = 0
+//@   before[C16] Loader.createPrefixFilters : ghost.needFilters == 1 && arg1 == c
+//@   before[C16] Loader.build : arg1 == c
+//@   loop 1 invariant[C16] ghost.needFilters == 0
+//@   loop 1 invariant prefixDeny != nil && prefixAllow != nil
